@@ -625,6 +625,49 @@ def r13_7(ctx):
         ctx.ok("crlf:fast-path", f.where(), "no fast path")
 
 
+def consistency_gates(ctx, fields):
+    """single-script (Cram / --cram-compat) execution has ONE configuration for the whole document - the script is set up from it (stream merge, CRLF,
+    skip code) while validation reads each test case's own value. compile_testcase therefore rejects documents whose test cases disagree: for every
+    key in `fields` there is a comparison `config.<key> != testcase.config.<key>` whose `different` edge reaches nothing but an Err result"""
+    from ..cfgq import bool_edges, cond_tree, switches, result_variant_blocks
+    prog = ctx.prog
+    f = prog.fn("compile_testcase")
+    o = Origins(f)
+    back = f.back_edges()
+    tails = {b_ for b_, _ in back}
+    oks = {b for b, _, _ in result_variant_blocks(f, "Ok")}
+    found = {}
+    for sb, st in switches(f):
+        be = bool_edges(f, sb)
+        if be is None:
+            continue
+        tree = cond_tree(f, sb, o)
+        neg = False
+        while tree.kind == "un" and tree.a == "Not":
+            neg, tree = not neg, tree.kids[0]
+        if not (tree.kind == "call" and method_name(tree.a) in ("PartialEq::ne", "PartialEq::eq") and len(tree.kids) == 2):
+            continue
+        names = []
+        for k in tree.kids:
+            n = peel(k)
+            names.append(n.a if n.kind == "field" else None)
+        if names[0] is None or names[0] != names[1]:
+            continue
+        sides = [k.show() for k in tree.kids]
+        if not (any("Iterator::next" in x or "arg1" in x for x in sides) and any("TestCaseConfig::empty" in x or "phi[" in x for x in sides)):
+            continue
+        diff_edge = be[0] if ((method_name(tree.a) == "PartialEq::ne") != neg) else be[1]
+        reach = set(f.reachable(diff_edge, removed_edges=back))
+        found[names[0]] = (sb, not (reach & tails) and not (reach & oks))
+    for key in fields:
+        hit = found.get(key)
+        ctx.check(hit is not None and hit[1], "consistent:" + key, f.loc(hit[0]) if hit else f.where(),
+                  "test cases that disagree on `%s` are rejected (the `different` edge of config.%s != testcase.config.%s only reaches an Err result)" % (key, key, key),
+                  "compile_testcase %s: the one script of the document is set up after one test case's `%s` while validation reads each test case's own value - e.g. a "
+                  "`combined` test case after a `stdout` one is validated against stdout only, a `stderr` one after `combined` against an always-empty stderr, and passes"
+                  % ("does not compare config.%s with the test case's value" % key if hit is None else "continues after finding a different `%s`" % key, key))
+
+
 def run(ctx):
     ctx.run_rule("R13.1", "splice-last: the str::replace that inserts the user's shell expression is the last substitution; Cram pushes the expression unmodified [E-FLOW]", r13_1, floor=6)
     ctx.run_rule("R13.2", "divider nonce: the random salt reaches the divider reader and gates divider recognition; writer/reader prefix agree [E-FLOW, summaries depth 4]", r13_2, floor=4)
@@ -637,3 +680,6 @@ def run(ctx):
     ctx.run_rule("R13.5", "Cram: per-test exit code and stdout come from the divider reader; outputs.len()==testcases.len() dominates Ok [E-FLOW, E-PATH]", r13_5, floor=3)
     from . import c16
     ctx.run_rule("R13.9", "the transformation guards (keep_crlf, strip_ansi_escaping, output_stream) read the test case's *effective* configuration: layer order at every merge call site, the executor keeps the test case's own value above the document defaults (shared with C16 R16.3) [E-SITE]", c16.r16_3, floor=9)
+    ctx.run_rule("R13.10", "the keys that drive the output transformations (keep_crlf, strip_ansi_escaping, output_stream) are merged receiver-first from their own field of the lower layer - no cross-wiring (shared with C16 R16.1) [E-FLOW]",
+                 lambda c: c16._merge_fields(c, c.prog.fn("TestCaseConfig::with_defaults_from"), "TestCaseConfig", only={"keep_crlf", "strip_ansi_escaping", "output_stream"}), floor=3)
+    ctx.run_rule("R13.11", "single-script execution: test cases that disagree on keep_crlf / output_stream are rejected by compile_testcase (one script, one configuration) [E-PATH]", lambda c: consistency_gates(c, ["keep_crlf", "output_stream"]), floor=2)
